@@ -77,7 +77,7 @@ func genC13(r *rand.Rand, t *Trace, thorough bool) {
 		if thorough && it%25 == 0 {
 			ntrain = p.nlist + r.Intn(500-p.nlist)
 		}
-		o := vecHistOpts{nops: 8 + r.Intn(30), trainFirst: it%10 != 0, ntrain: ntrain, allowReuse: it%3 == 1}
+		o := vecHistOpts{nops: 8 + r.Intn(30), trainFirst: it%10 != 0, ntrain: ntrain, allowReuse: it%3 == 1, allowDup: it%4 == 2}
 		c := runVecHistory(r, p, o, t)
 		t.Emit(c, "ivf.metric."+string(metrics[p.metric]))
 	}
@@ -96,7 +96,7 @@ func genC14(r *rand.Rand, t *Trace, thorough bool) {
 				p.dim = []int{4, 8, 16}[r.Intn(3)]
 				p.m = pickM(r, p.dim)
 			}
-			o := vecHistOpts{nops: 8 + r.Intn(30), trainFirst: it%10 != 0, ntrain: ntrain, allowReuse: it%3 == 1}
+			o := vecHistOpts{nops: 8 + r.Intn(30), trainFirst: it%10 != 0, ntrain: ntrain, allowReuse: it%3 == 1, allowDup: it%4 == 2}
 			c := runVecHistory(r, p, o, t)
 			t.Emit(c, []string{"", "", "pq", "ivfpq"}[kind]+".metric."+string(metrics[p.metric]))
 		}
